@@ -1376,6 +1376,11 @@ func (e *Engine) runHooks(st *State, fr *Frame, instr ssa.Instruction, key, when
 			}
 			fr.names[h.Name] = v
 			delete(fr.nameAddr, h.Name)
+			if fr.snaps == nil {
+				fr.snaps = map[string]bool{}
+			}
+			fr.snaps[h.Name] = true
+			delete(fr.nameDef, h.Name)
 		case "assert":
 			t, err := e.evalBool(st, env, h.Clause.Expr)
 			if err != nil {
